@@ -13,6 +13,7 @@ mod funcs;
 mod rty;
 mod tr;
 mod trexpr;
+mod wrappers;
 
 fn bytes_lit(b: &[u8]) -> String {
     let mut s = String::from("[");
